@@ -154,6 +154,29 @@ fn enc_pair<I: EncItem>(e: Entity, i: &I, out: &mut Vec<u64>) {
     i.enc(out);
 }
 
+/// walk an exact-size iterator: len() must equal the number of items still to come at EVERY step
+fn drain_exact<T: EncItem, I: ExactSizeIterator<Item = (Entity, T)>>(mut it: I, body: &mut Vec<u64>, flags: &mut Vec<String>, path: u64) -> (u64, u64) {
+    let first = it.len() as u64;
+    let mut lens = vec![first];
+    let mut n = 0u64;
+    while let Some((e, i)) = it.next() {
+        enc_pair(e, &i, body);
+        n += 1;
+        lens.push(it.len() as u64);
+        let (lo, hi) = it.size_hint();
+        if lo as u64 != *lens.last().unwrap() || hi.map(|h| h as u64) != Some(*lens.last().unwrap()) {
+            flags.push(format!("C08: size_hint {:?} disagrees with len() {} (path {path})", (lo, hi), lens.last().unwrap()));
+        }
+    }
+    for (k, l) in lens.iter().enumerate() {
+        if *l != n - k as u64 {
+            flags.push(format!("C08: after {k} items len() reported {l} but {} more were yielded (path {path})", n - k as u64));
+            break;
+        }
+    }
+    (first, n)
+}
+
 pub struct PathV<'a> {
     pub world: &'a mut World,
     pub path: u64,
@@ -182,31 +205,17 @@ impl QVisitor for PathV<'_> {
             0 => {
                 let mut qb = w.query::<Q>();
                 let it = qb.iter();
-                o.push(it.len() as u64);
-                let mut n = 0u64;
                 let mut body = Vec::new();
-                for (e, i) in it {
-                    enc_pair(e, &i, &mut body);
-                    n += 1;
-                }
-                if matches!(self.path, 0 | 1 | 4 | 5) && !o.is_empty() && o[0] != n {
-                    self.flags.push(format!("C08: len() reported {} but iteration yielded {n} (path {})", o[0], self.path));
-                }
+                let (first, n) = drain_exact(it, &mut body, self.flags, self.path);
+                o.push(first);
                 o.push(n);
                 o.extend(body);
             }
             1 => {
                 let it = w.query_mut::<Q>().into_iter();
-                o.push(it.len() as u64);
-                let mut n = 0u64;
                 let mut body = Vec::new();
-                for (e, i) in it {
-                    enc_pair(e, &i, &mut body);
-                    n += 1;
-                }
-                if matches!(self.path, 0 | 1 | 4 | 5) && !o.is_empty() && o[0] != n {
-                    self.flags.push(format!("C08: len() reported {} but iteration yielded {n} (path {})", o[0], self.path));
-                }
+                let (first, n) = drain_exact(it, &mut body, self.flags, self.path);
+                o.push(first);
                 o.push(n);
                 o.extend(body);
             }
@@ -294,30 +303,16 @@ impl QVisitor for PathV<'_> {
                 if self.path == 4 {
                     let mut b = pq.query(w);
                     let it = b.iter();
-                    o.push(it.len() as u64);
-                    let mut n = 0u64;
                     let mut body = Vec::new();
-                    for (e, i) in it {
-                        enc_pair(e, &i, &mut body);
-                        n += 1;
-                    }
-                    if matches!(self.path, 0 | 1 | 4 | 5) && !o.is_empty() && o[0] != n {
-                        self.flags.push(format!("C08: len() reported {} but iteration yielded {n} (path {})", o[0], self.path));
-                    }
+                    let (first, n) = drain_exact(it, &mut body, self.flags, self.path);
+                    o.push(first);
                     o.push(n);
                     o.extend(body);
                 } else if self.path == 5 {
                     let it = pq.query_mut(w);
-                    o.push(it.len() as u64);
-                    let mut n = 0u64;
                     let mut body = Vec::new();
-                    for (e, i) in it {
-                        enc_pair(e, &i, &mut body);
-                        n += 1;
-                    }
-                    if matches!(self.path, 0 | 1 | 4 | 5) && !o.is_empty() && o[0] != n {
-                        self.flags.push(format!("C08: len() reported {} but iteration yielded {n} (path {})", o[0], self.path));
-                    }
+                    let (first, n) = drain_exact(it, &mut body, self.flags, self.path);
+                    o.push(first);
                     o.push(n);
                     o.extend(body);
                 } else {
@@ -451,6 +446,75 @@ impl QVisitor for PathV<'_> {
                         (Err(_), Err(_), Err(_)) => o.push(3),
                         _ => {
                             flags.push("C08: query_many_mut and View::get_many_mut disagree about rejecting the handle list".to_string());
+                            o.push(4);
+                        }
+                    }
+                }
+            }
+            11 => {
+                // five handles in a scrambled order (assert_distinct sorts a copy when there are more than three)
+                let hs = self.handles;
+                if hs.len() < 5 {
+                    o.push(7);
+                } else {
+                    let k = (self.arg as usize) % hs.len();
+                    let rot: Vec<Entity> = hs[k..].iter().chain(hs[..k].iter()).copied().collect();
+                    let five = if self.arg >= 1000 { [rot[3], rot[1], rot[4], rot[0], rot[3]] } else { [rot[3], rot[1], rot[4], rot[0], rot[2]] };
+                    let flags = &mut *self.flags;
+                    let r = std::panic::catch_unwind(std::panic::AssertUnwindSafe(|| {
+                        let mut a = Vec::new();
+                        for r in w.query_many_mut::<Q, 5>(five) {
+                            match r {
+                                Err(QueryOneError::NoSuchEntity) => a.push(0),
+                                Err(QueryOneError::Unsatisfied) => a.push(1),
+                                Ok(i) => {
+                                    a.push(2);
+                                    i.enc(&mut a);
+                                }
+                            }
+                        }
+                        a
+                    }));
+                    let r2 = std::panic::catch_unwind(std::panic::AssertUnwindSafe(|| {
+                        let mut a = Vec::new();
+                        let mut v = w.view_mut::<Q>();
+                        for r in v.get_many_mut(five) {
+                            match r {
+                                None => a.push(0),
+                                Some(i) => {
+                                    a.push(1);
+                                    i.enc(&mut a);
+                                }
+                            }
+                        }
+                        a
+                    }));
+                    let r3 = std::panic::catch_unwind(std::panic::AssertUnwindSafe(|| {
+                        let mut a = Vec::new();
+                        let mut vb = w.view::<Q>();
+                        for r in vb.get_many_mut(five) {
+                            match r {
+                                None => a.push(0),
+                                Some(i) => {
+                                    a.push(1);
+                                    i.enc(&mut a);
+                                }
+                            }
+                        }
+                        a
+                    }));
+                    match (r, r2, r3) {
+                        (Ok(a), Ok(b), Ok(c)) => {
+                            if b != c {
+                                flags.push("C08: View::get_many_mut and ViewBorrow::get_many_mut disagree".to_string());
+                            }
+                            o.push(1);
+                            o.extend(a);
+                            o.extend(b);
+                        }
+                        (Err(_), Err(_), Err(_)) => o.push(3),
+                        _ => {
+                            flags.push("C08: query_many_mut / View::get_many_mut / ViewBorrow::get_many_mut disagree about rejecting the handle list".to_string());
                             o.push(4);
                         }
                     }
